@@ -530,7 +530,7 @@ func readBackStream(ops []op, frags [][]byte, tail, expectLeft []byte) string {
 	}()
 	defer c2.Close()
 	var res string
-	o := vh.GuardTimeout(20*time.Second, func() {
+	o := vh.GuardTimeout(120*time.Second, func() {
 		in := gio.NewDataInputNet(c2)
 		raw := make([]op, len(ops))
 		early := make([]string, len(ops))
@@ -541,7 +541,7 @@ func readBackStream(ops []op, frags [][]byte, tail, expectLeft []byte) string {
 		rest := "0"
 		if len(expectLeft) > 0 {
 			got := make([]byte, len(expectLeft))
-			c2.SetReadDeadline(time.Now().Add(3 * time.Second))
+			c2.SetReadDeadline(time.Now().Add(30 * time.Second))
 			n, err := stdio.ReadFull(c2, got)
 			if err != nil || !bytes.Equal(got, expectLeft) {
 				rest = fmt.Sprintf("next-message-damaged(%d of %d bytes left on the connection: %s)", n, len(expectLeft), vh.Hex(got[:n]))
@@ -622,6 +622,7 @@ func main() {
 		}
 		lines, exps = nil, nil
 	}
+	tailBroken := false
 	checkProg := func(ops []op, tag string) {
 		var p prog
 		oc := vh.Guard(func() { p = runWrite(ops) })
@@ -654,7 +655,7 @@ func main() {
 			rep.Count("stream-read")
 			frags := fragmentsOf(p.bytes, rng)
 			var tail, tailAll []byte
-			if rng.Chance(50) {
+			if rng.Chance(50) && !tailBroken {
 				tailAll = rng.Bytes(1 + rng.Intn(40))
 				tail = tailAll
 				if rng.Chance(50) { // the next message arrives in the same fragment as the end of this one
@@ -669,6 +670,10 @@ func main() {
 				key := "stream-roundtrip:" + firstDiffKind(ops, sb, want)
 				if strings.Contains(sb, "next-message-damaged") {
 					key = "stream-consumes-beyond-the-program"
+					tailBroken = true // established once; every further probe would wait for its deadline
+				}
+				if strings.HasPrefix(sb, "fail:timeout") {
+					streamBudget = 0 // a hanging stream read is established once
 				}
 				rep.Fail("property", key, "read back over a fragmented connection differs from what was written, or took bytes of the next message",
 					map[string]interface{}{"ops": vh.Clip(p.line, 2000), "bytes": vh.Clip(vh.Hex(p.bytes), 2000), "fragments": vh.Clip(fragLine(frags), 2000), "tail": vh.Hex(tail), "read": vh.Clip(sb, 2000)})
